@@ -20,9 +20,11 @@ RULE = ('every public indicator with a `sequential` argument x (default + non-de
         'between); every call gets a private copy of the series, which must come back unmodified. distinct = distinct (indicator, parameter set, series kind, prefix); non-trivial = both calls returned and the '
         'prefix has at least one finite value.')
 ASSUMPTIONS = ['relative tolerance 1e-9, absolute 1e-12 x output scale, NaN == NaN', 'a prefix on which the function raises while '
-               'the full series works is skipped and counted', 'the extrema detector (minmax) is exempt in its last `order` positions']
+               'the full series works is skipped and counted', 'the extrema detector (minmax) is exempt in its last `order` positions',
+               'string-valued fields (labels such as buy/sell) are not judged on series with systematic ties (alternating, flat, lattice)']
 MIN_OBS = {'indicators_compared': 150, 'comparisons': 2500, 'field_comparisons': 4000, 'repeatability_probes': 150}
 SHARD_TIMEOUT = 2400
+TIE_PRONE = ('alternating', 'flat', 'lattice', 'constant')
 JOB_TIMEOUT = 900
 
 
@@ -93,6 +95,12 @@ def run_job(job):
                     for fld, v in pre.items():
                         a, b = indlib.as_array(v), indlib.as_array(full.get(fld))
                         if a is None or b is None or a.ndim == 0:
+                            continue
+                        if kind in TIE_PRONE and (a.dtype == object or a.dtype.kind in 'USb') and \
+                                any(isinstance(x_, str) for x_ in a.tolist()):
+                            # a label derived from comparing two nearly equal numbers ('buy' / 'sell') may flip with the last
+                            # ulp of a sum taken over a longer array; series with systematic ties are not judged for labels
+                            cnt['label_fields_on_tie_prone_series_skipped'] = cnt.get('label_fields_on_tie_prone_series_skipped', 0) + 1
                             continue
                         cnt['field_comparisons'] = cnt.get('field_comparisons', 0) + 1
                         upto = len(a)
